@@ -83,7 +83,8 @@ def make_request(rng, ledger, target_total, big=False):
         elif kind == 'claim':
             c = Claim()
             c.stream.title = 't' * rng.choice([0, 5, 300])
-            o = Output.pay_claim_name_pubkey_hash(amt, rng.choice(['a', 'name', 'n' * 40, '@chan']), c, h)
+            # (names outside ASCII too: the name fee is per BYTE of the name as it stands in the script)
+            o = Output.pay_claim_name_pubkey_hash(amt, rng.choice(['a', 'name', 'n' * 40, '@chan', '\u00f1ame', '\u540d\u524d' * 6, '\U0001f600' * 5]), c, h)
         elif kind == 'support':
             o = Output.pay_support_pubkey_hash(amt, 'name', 'ab' * 20, h)
         else:
